@@ -64,4 +64,21 @@ BOUNDS = {
         "all": "10 bodies x 8 routes with 3 symbolic holes; 7 strictness programs.",
         "assumptions": ["outside: typed func declarations, tail-call route, map route for lazy functions"],
     },
+    "C06": {
+        "quick": "algorithm: 2 operators (3 operands); table: 17x17 operator pairs; meaning: 8x8 operator pairs over {+ - * < <= == and or}, symbolic int operands.",
+        "thorough": "algorithm: 3 operators (4 operands).",
+        "assumptions": ["equal binding powers with different associativity are excluded (no defined meaning); and/or among themselves are excluded from the table check (associativity not documented)",
+                        "outside: tokenisation of operators without spaces (lexer), indexing/slicing/dot/call munchers, if/else and go-style for lowering, comma"],
+    },
+    "C08": {
+        "quick": "every name x arity 0..1 x 7 argument shapes (canary secret file path, shell command string, touch-file path, environment variable name, 'touch', int, quoted symbol).",
+        "thorough": "arity 0..2.",
+        "assumptions": ["engine: every function of os, os/exec, syscall, io/ioutil, net is an effect marker returning an error (never executed); effects counted are those a native run can observe with the same canaries",
+                        "outside: cmd/zygo -sandbox as a process, grammar-generated programs combining primitives, arity > 2"],
+    },
+    "C12": {
+        "quick": "chars < U+0250; strings of 1 rune < U+0250; ints |i| < 10^5; literals of 1..3 digits; nested shapes of 2 atoms.",
+        "thorough": "chars < U+1000; strings of 1..2 runes < U+0250; ints |i| < 10^9.",
+        "assumptions": ["decimal printing of symbolic ints uses the engine's digit model", "outside: floats (strconv.FormatFloat/ParseFloat on symbolic values is not encodable), hashes through eval, symbols with unusual names, runes above the bound (the full range did not finish in 25 minutes)"],
+    },
 }
